@@ -222,6 +222,8 @@ def exec_while(interp, node, frame):
     st.oblige(label + ' invariant[entry]', inv0, {'kind': 'loop-entry'})
     which = st.choose(2)
     _havoc(interp, frame, spec, modified, 'L%s' % ordinal)
+    from . import strings as _strings
+    _strings.forget_dead_pieces(interp)
     inv = interp.truth(_call_pred(interp, spec.invariant, _env_of(interp, frame, {})))
     st.assume(inv)
     guard = interp.eval(node.test, frame)
@@ -336,6 +338,8 @@ def _for_symbolic(interp, node, frame, src):
     which = st.choose(2)
     tag = 'L%s' % ordinal
     _havoc(interp, frame, spec, modified, tag)
+    from . import strings as _strings
+    _strings.forget_dead_pieces(interp)
     if which == 0:
         i = st.fresh_int('_i@' + tag)
         st.assume(z3.And(i >= start, i < n))
